@@ -6,6 +6,7 @@ import (
 	"fmt"
 	"reflect"
 	"regexp"
+	"sort"
 	"strconv"
 	"strings"
 
@@ -228,15 +229,39 @@ func (s *Script) evalWithRoot(stack, data, root any) (any, Expr) {
 		data = da
 	default:
 		rv := reflect.ValueOf(td)
-		if rv.Kind() != reflect.Slice && rv.Kind() != reflect.Array {
+		var da []any
+		switch rv.Kind() {
+		case reflect.Slice, reflect.Array:
+			for i := 0; i < rv.Len(); i++ {
+				da = append(da, rv.Index(i).Interface())
+				locKeys = append(locKeys, Nth(i))
+			}
+		case reflect.Struct:
+			// The fields are the members, as for a wildcard.
+			rt := rv.Type()
+			for i := 0; i < rv.NumField(); i++ {
+				if fv := rv.Field(i); fv.CanInterface() {
+					da = append(da, fv.Interface())
+					locKeys = append(locKeys, Child(rt.Field(i).Name))
+				}
+			}
+		case reflect.Map:
+			if rv.Type().Key().Kind() != reflect.String {
+				return stack, locs
+			}
+			// Sorted so the members are visited in a repeatable order.
+			keys := rv.MapKeys()
+			sort.Slice(keys, func(i, j int) bool {
+				return keys[i].String() < keys[j].String()
+			})
+			for _, k := range keys {
+				da = append(da, rv.MapIndex(k).Interface())
+				locKeys = append(locKeys, Child(k.String()))
+			}
+		default:
 			return stack, locs
 		}
-		dlen = rv.Len()
-		da := make([]any, 0, dlen)
-		for i := 0; i < dlen; i++ {
-			da = append(da, rv.Index(i).Interface())
-			locKeys = append(locKeys, Nth(i))
-		}
+		dlen = len(da)
 		data = da
 	}
 	sstack := make([]any, len(s.template))
